@@ -12,7 +12,7 @@ THEOREMS = [
     "Astm.C20.no_shared_mutable_defaults", "Astm.C20.mutation_leaves_other_records_unchanged",
     "Astm.C20.construct_is_pure_and_isolated", "Astm.C20.step_preserves_independence",
     "Astm.C20.history_keeps_independence", "Astm.C20.fresh_record_independent_of_history",
-    "Astm.C20.records_isolated_after_any_history", "Astm.C20.shared_default_leaks",
+    "Astm.C20.records_isolated_after_any_history", "Astm.C20.shared_default_leaks", "Astm.C20.example_list_surgery",
     "Astm.C20.anchored_code_keeps_no_other_state",
 ]
 RULE = ("for every record class of every schema that has component or repeated fields (and a sample of the others): "
@@ -24,7 +24,8 @@ RULE = ("for every record class of every schema that has component or repeated f
 LEVEL_NOTE = ("proof: in the heap model records never share objects after any operation history (given that no field declares "
               "a shared mutable default, decided on the regenerated tables), so operations on one record never change another "
               "and a fresh record renders to the pure wrap value; tie = correspondence of the heap model with real record objects")
-ASSUMPTIONS = ["operations outside the modelled set (Proxy list surgery such as insert / pop / slice assignment) are not covered"]
+ASSUMPTIONS = ["operations outside the modelled set (slice assignment, sorting, a list view or an occurrence object handed from "
+               "one record to another, copy.deepcopy) are judged by the oracle only (stream views-and-copies)"]
 
 
 def text_subs(f):
@@ -56,7 +57,7 @@ def run_history(r, module, letter, spec, cls, n_ops, stream, ctx, lines, pend):
     planted_ts = set()
     shared_input = [None]
     for step in range(n_ops):
-        kind = r.choice(["C", "C", "S", "RS", "AP", "AC", "N", "FRESH", "FAILC", "JR"] + (["JR", "JR"] if json_fields else [])) if recs else "C"
+        kind = r.choice(["C", "C", "S", "RS", "AP", "AC", "N", "FRESH", "FAILC", "JR", "RL", "RL"] + (["JR", "JR"] if json_fields else [])) if recs else "C"
         try:
             before = [copy.deepcopy(x.to_dict()) for x in recs]
         except Exception as e:  # noqa
@@ -158,6 +159,52 @@ def run_history(r, module, letter, spec, cls, n_ops, stream, ctx, lines, pend):
                     kvs = recs[target].to_dict()[f["name"]][-1]
                     ops_wire.append("AP %d %s %s" % (target, f["name"], ",".join(
                         "%s=%s" % (k, "n" if v is None else "t" + codecio.cps(v)) for k, v in kvs.items())))
+            elif kind == "RL" and rep_fields:
+                # list surgery on the occurrences: insert / delete / pop / replace / extend / += / *=
+                f = r.choice(rep_fields)
+                target = r.randrange(len(recs))
+                if recs[target]._data.get(f["name"]) is None:
+                    continue
+                lst = getattr(recs[target], f["name"])
+                n0 = len(lst)
+                how = r.choice(["insert", "del", "pop", "setitem", "extend", "iadd", "imul"])
+                fresh = lambda: schemaio.gen_component(r, f["sub"], force=True)[0]   # noqa
+                sel, new_at = None, []
+                if how == "insert":
+                    i = r.randrange(n0 + 1)
+                    lst.insert(i, fresh())
+                    sel = ["o%d" % k for k in range(i)] + ["n0"] + ["o%d" % k for k in range(i, n0)]
+                    new_at = [i]
+                elif how in ("del", "pop") and n0:
+                    i = r.randrange(n0)
+                    if how == "del":
+                        del lst[i]
+                    else:
+                        lst.pop(i)
+                    sel = ["o%d" % k for k in range(n0) if k != i]
+                elif how == "setitem" and n0:
+                    i = r.randrange(n0)
+                    lst[i] = fresh()
+                    sel = ["o%d" % k if k != i else "n0" for k in range(n0)]
+                    new_at = [i]
+                elif how in ("extend", "iadd"):
+                    k = r.choice([1, 2])
+                    items = [fresh() for _ in range(k)]
+                    if how == "extend":
+                        lst.extend(items)
+                    else:
+                        lst += items
+                    sel = ["o%d" % j for j in range(n0)] + ["n%d" % j for j in range(k)]
+                    new_at = list(range(n0, n0 + k))
+                elif how == "imul" and n0 <= 3:
+                    lst *= 2
+                    sel = ["o%d" % j for j in range(n0)] * 2
+                else:
+                    continue
+                rendered = recs[target].to_dict()[f["name"]]
+                news = "+".join(",".join("%s=%s" % (k, "n" if v is None else "t" + codecio.cps(v)) for k, v in rendered[i].items())
+                                for i in new_at) or "-"
+                ops_wire.append("RL %d %s %s %s" % (target, f["name"], news, ",".join(sel) or "-"))
             elif kind == "AC" and comp_fields:
                 f = r.choice(comp_fields)
                 target = r.randrange(len(recs))
@@ -198,6 +245,8 @@ def run_history(r, module, letter, spec, cls, n_ops, stream, ctx, lines, pend):
                 oracle_msg = ("interference", "operation %r changed record %d which it does not target" % (ops_wire[-1][:60], i))
     case = {"module": module, "letter": letter, "ops": ops_wire}
     stream.case(case, nontrivial=absent_mutation)
+    for o in ops_wire:
+        stream.count("op " + o.split(" ", 1)[0])
     if oracle_msg:
         stream.fail(case, oracle_msg[1], "histories/" + oracle_msg[0])
     if ops_wire:
@@ -304,7 +353,11 @@ def views_and_copies_stream(ctx):
             try:
                 if how == "deepcopy":
                     b = copy.deepcopy(a)
-                    if b.to_dict() != a.to_dict():
+                    try:
+                        same = b.to_dict() == a.to_dict()
+                    except Exception:
+                        same = False
+                    if not same:
                         v.case(case)
                         v.fail(case, "a deep copy of a record renders differently from the record", "views-and-copies/copy-differs")
                         continue
@@ -331,7 +384,12 @@ def views_and_copies_stream(ctx):
             # operations on one of the two; the other must not change
             for _k in range(r.randrange(1, 6)):
                 tgt, other = (a, b) if r.random() < 0.5 else (b, a)
-                before = copy.deepcopy(other.to_dict())
+                try:
+                    before = copy.deepcopy(other.to_dict())
+                except Exception as e:  # noqa
+                    v.fail(dict(case, error=repr(e)[:120]), "a record that was constructed / copied without error cannot be rendered",
+                           "views-and-copies/render-raises")
+                    break
                 try:
                     if how == "deepcopy":
                         op = r.choice(["occ-sub", "comp-sub", "append", "pop", "assign"])
